@@ -12,6 +12,10 @@ def run(ctx):
         ctx.run_shards(b, "TestVerifC07", n, 900 if ctx.tier == "quick" else 3400, "c07")
         br = ctx.build(pkg, race=True)
         ctx.run_shards(br, "TestVerifC07", 16, 1500 if ctx.tier == "quick" else 3400, "c07race", extra_env={"VERIF_TIER": "quick"}, race=True)
+    if not ctx.replay:
+        # real loopback UDP, real timeouts, isolated datagram losses through a relay (one DNS server per process)
+        bn = ctx.build("internal/zzverif/c07net")
+        ctx.run_shards(bn, "TestVerifC07Net", 4, 900, "c07net")
     return driver.finish(
         ctx, "fault_enumeration",
         "scenarios = (fate script over every DNS exchange {delivered, query lost, answer lost, query duplicated, old query replayed with lag "
@@ -20,5 +24,5 @@ def run(ctx):
         "keyed streams simultaneously; oracle: bytes read are always a prefix of the bytes accepted by Write, isolated losses (bursts<=3) never "
         "surface as a Write error, after the script turns transparent everything accepted is read within 4*outstanding+64 exchanges; timeouts are "
         "virtual, verdicts count exchanges not seconds. A scenario is non-trivial if >=1 byte was verified.",
-        ["a lost exchange is modelled as the wrapped net.Error timeout the real UDP communicator returns", "in-memory exchange; real UDP is covered by C01's DNS carrier"],
+        ["a lost exchange is modelled as the wrapped net.Error timeout the real UDP communicator returns", "the bulk of the exploration is in-memory; four real-UDP cases (loopback, relay dropping isolated datagrams, real timeouts) run the whole stack"],
         min_distinct=2)
